@@ -82,13 +82,28 @@ package lisp
 //@   ensures implies(r, lookupOK(world(), env.(*Env), ast.(List).Val[0].(Symbol).Val) && is(lookupV(world(), env.(*Env), ast.(List).Val[0].(Symbol).Val), MalFunc))
 //@   ensures r == isMacroCall(ast, env, world()) @C01,C03,C08,C12,C18
 
+// the quasiquote transform of the mal definition: (unquote x) -> x; a list -> the right fold of its
+// elements with (concat x rest) for (splice-unquote x) and (cons <qq elt> rest) otherwise, starting
+// from (); a vector -> (vec <that fold>); symbols and hash-maps -> (quote x); everything else as it
+// is. qqV names the result of quasiquote on a form (assumed for the recursive calls, one unfolding
+// checked); qqRel(xs, i, acc): acc is the fold of xs[i:]. Both read the built lists; forms and
+// results are immutable (A-IMMUT).
+//@ spec isSym(x MalType, n string) bool = is(x, Symbol) && x.(Symbol).Val == n
+//@ spec startsWith(x MalType, n string) bool = is(x, List) && len(lst(x)) > 1 && isSym(lst(x)[0], n)
+//@ spec isList2(r MalType, n string, a MalType) bool = is(r, List) && len(lst(r)) == 2 && isSym(lst(r)[0], n) && lst(r)[1] == a
+//@ spec isList3(r MalType, n string, a MalType) bool = is(r, List) && len(lst(r)) == 3 && isSym(lst(r)[0], n) && lst(r)[1] == a
+//@ spec rec qqRel(xs []MalType, i int, acc MalType) bool = ite(i >= len(xs), is(acc, List) && len(lst(acc)) == 0, ite(startsWith(xs[i], "splice-unquote"), isList3(acc, "concat", lst(xs[i])[1]) && qqRel(xs, i+1, lst(acc)[2]), isList3(acc, "cons", qqV(xs[i])) && qqRel(xs, i+1, lst(acc)[2])))
+//@ spec qqStep(x MalType, r MalType) bool = ite(is(x, Vector), is(r, List) && len(lst(r)) == 2 && isSym(lst(r)[0], "vec") && qqRel(x.(Vector).Val, 0, lst(r)[1]), ite(is(x, HashMap) || is(x, Symbol), isList2(r, "quote", x), ite(is(x, List), ite(startsWith(x, "unquote"), r == lst(x)[1], qqRel(lst(x), 0, r)), r == x)))
 //@ func quasiquote(ast) (r)
 //@   panics never
 //@   assigns nothing
 //@   ensures r == qqV(ast) @assume
+//@   ensures qqStep(ast, r) @C12
 
 //@ func qq_loop(xs) (r)
 //@   panics never
+//@   ensures qqRel(xs, 0, r) @C12
+//@   loop 1 invariant -1 <= i && i < len(xs) && qqRel(xs, i + 1, acc) @C12
 
 //@ func starts_with(xs, sym) (r)
 //@   panics never
